@@ -395,6 +395,27 @@ def run(tier, replay=None):
         if arr.tolist() != probs.tolist():
             chk.violation("posterior_as_array does not follow the VCF order", case, "C11/posterior_as_array/order")
     chk.extra["exhaustive_spaces"] = len(spaces)
+    # posterior_as_array on the integer types the traces are stored in (call-pedigree: int16, call: int32, relabelled: int64), spaces
+    # with more genotypes than an int16 / fewer than an int32 can count: every probability sits at the VCF position of its genotype
+    rb = C.rng(PROP + ":as_array")
+    big_spaces = [(4, 30), (2, 300), (6, 15), (4, 40), (3, 70), (8, 9)]
+    for (p_, n_) in big_spaces[: {"warm": 1, "quick": 6, "thorough": 6}[tier]]:
+        n_gen = math.comb(n_ + p_ - 1, p_)
+        for dt in (np.int16, np.int32, np.int64):
+            obs = {tuple(sorted(rb.randrange(n_) for _ in range(p_))) for _ in range(12)}
+            obs |= {tuple([n_ - 1] * p_), tuple([0] * (p_ - 1) + [n_ - 1]), tuple([0] * p_)}
+            obs = sorted(obs)
+            probs = np.array([(i + 1) / 100.0 for i in range(len(obs))])
+            arr = posterior_as_array(np.array(obs, dtype=dt), probs, n_gen)
+            chk.count("posterior_as_array:large-space"); chk.count(f"posterior_as_array:dtype={np.dtype(dt).name}")
+            chk.case(("as_array", p_, n_, np.dtype(dt).name), n_gen > 32767)
+            want = {sum(math.comb(a + i, i + 1) for i, a in enumerate(g)): float(pr) for g, pr in zip(obs, probs)}
+            got = {int(i): float(arr[i]) for i in np.nonzero(arr)[0]}
+            if len(arr) != n_gen or got != want:
+                wrong = sorted(set(want.items()) ^ set(got.items()))[:6]
+                chk.violation("posterior_as_array does not place every probability at the VCF position of its genotype",
+                              {"ploidy": p_, "n_alleles": n_, "n_genotypes": n_gen, "dtype": np.dtype(dt).name, "length": int(len(arr)),
+                               "first_differences(index, value)": wrong}, "C11/posterior_as_array/order")
     # a consumer that pairs the index with the enumerator: every G-length likelihood array (FORMAT/GL, the array path of call-exact)
     # over more than 1024 genotypes has entry i = genotype number i
     from .c04 import gl_large_spaces
